@@ -263,6 +263,22 @@ def run_names(u, sgmod):
         nm = re.sub(r'\s+', '', s.name).lower()
         if nm not in sgmod.sgdic or int(re.sub(r'\D', '', sgmod.sgdic[nm])) != no:
             bad.append('sg(sgno=%d).name=%r does not map back to %d' % (no, s.name, no))
+    # history independence: sg.sg must return the tables of the requested setting whatever was requested before in this process
+    for no in RHOMB:
+        klass = getattr(sglib, 'Sg%d' % no)
+        keyr = [k for k, vv in sgmod.sgdic.items() if vv == 'Sg%d' % no and k[-1] == 'r' and len(k) > 2 and k[:-1] in sgmod.sgdic]
+        seq = [('no', 'standard'), ('no', 'rhombohedral'), ('no', 'standard'), ('name', 'rhombohedral'), ('name', 'standard'), ('no', 'rhombohedral')]
+        for how, cc in seq:
+            n += 1
+            fresh = klass(cell_choice=cc)
+            if how == 'no':
+                got = sgmod.sg(sgno=no, cell_choice=cc)
+            else:
+                nm = keyr[0] if cc == 'rhombohedral' else keyr[0][:-1]
+                got = sgmod.sg(sgname=nm)
+            if got.cell_choice != fresh.cell_choice or not np.array_equal(got.rot, np.array(fresh.rot)) or not np.allclose(got.trans, np.array(fresh.trans), atol=1e-12, rtol=0) \
+                    or list(got.syscond) != list(fresh.syscond):
+                bad.append('Sg%d requested as %s/%s after other settings were used returns the tables of another setting' % (no, how, cc))
     if numbers != set(range(1, 231)):
         bad.append('sgdic covers %d numbers' % len(numbers))
     u.prove('C04/names/lookup', [], z3.BoolVal(not bad), replay=lambda m: (True, {'kind': 'names'}, '; '.join(bad[:5])),
